@@ -56,6 +56,9 @@ func (s *randomBitStream) drawBits(n int) uint64 {
 	return u
 }
 
+// overrunMsg is the invalid-data panic of a bitstream that has no more bits to give.
+const overrunMsg = "overrun"
+
 type bufBitStream struct {
 	buf []uint64
 	recordedBits
@@ -73,7 +76,7 @@ func (s *bufBitStream) drawBits(n int) uint64 {
 	assert(n >= 0)
 
 	if len(s.buf) == 0 {
-		panic(invalidData("overrun"))
+		panic(invalidData(overrunMsg))
 	}
 
 	u := s.buf[0] & bitmask64(uint(n))
